@@ -32,7 +32,7 @@ func init() {
 			"repository, and the reference in the form that was split off), the fully-qualified branch compares registry and repository with the base, an empty " +
 			"reference is rejected, ValidateRegistry requires a non-empty uri.Host equal to the registry, String emits '@' exactly when Digest() parses; " +
 			"(R4) each URL builder evaluates to the spec's endpoint template with the reference parts in their own slot, scheme chosen by PlainHTTP, and the " +
-			"blob/manifest builders are used by the blob/manifest stores respectively. NOT decided (not applicable to static analysis): acceptance ⇔ grammar for " +
+			"blob/manifest builders are used by the blob/manifest stores respectively. (R5) in registry/remote the raw reference string given to Resolve/FetchReference/PushReference/Tag/NewRepository reaches no Reference field, URL builder or request URL — only the ParseReference result does, and the parse error is surfaced. NOT decided (not applicable to static analysis): acceptance ⇔ grammar for " +
 			"whole strings and the String/Parse round trip (string computation), net/url's authority parsing, which digest algorithms are registered at run time.",
 		Run:     runC20,
 		Mutants: c20Mutants,
@@ -48,6 +48,7 @@ func runC20(c *Ctx) {
 	c20R2(c, repoL, tagL, repoPos, tagPos)
 	c20R3(c)
 	c20R4(c)
+	c20R5(c)
 }
 
 // ---------- R1 ----------
@@ -108,16 +109,16 @@ func c20AcceptsIffMatch(fn *ssa.Function, field string) (bool, string) {
 }
 
 func c20PatternOf(c *Ctx, rule string, fn *ssa.Function) (*reLang, *reSource) {
-	gs := reGlobalsUsedBy(fn)
-	if len(gs) != 1 {
-		c.LostAnchor(rule, FnName(fn)+": the pattern variable it matches against")
-		return nil, nil
-	}
-	src, err := reGlobalSource(gs[0], 0)
+	srcs, err := rePatternsUsedBy(fn)
 	if err != nil {
 		c.Undecided(rule, FnName(fn)+"|pattern", fn.Pos(), "cannot obtain the pattern text: "+err.Error())
 		return nil, nil
 	}
+	if len(srcs) != 1 {
+		c.LostAnchor(rule, fmt.Sprintf("%s: the pattern it matches against (%d found)", FnName(fn), len(srcs)))
+		return nil, nil
+	}
+	src := srcs[0]
 	l, err := reParse(src.Src, src.Flags)
 	if err != nil {
 		c.Violation(rule, FnName(fn)+"|pattern", src.Pos, "the pattern does not compile: "+err.Error())
@@ -394,11 +395,20 @@ func c20Recv(r *sxCallRec) sxVal {
 	if r.Callee != nil && r.Callee.Signature.Recv() != nil && len(r.Args) > 0 {
 		return r.Args[0]
 	}
+	if strings.HasPrefix(r.Name, "(~/registry.Reference).") && len(r.Args) > 0 {
+		return r.Args[0] // method expression Reference.M(ref)
+	}
 	return nil
 }
 
 // c20Validated: a call of method `name` on a receiver equal to v returned nil.
 func c20Validated(p *sxPath, v sxVal, names ...string) bool {
+	for _, n := range names {
+		if n == "ValidateRegistry" || n == "ValidateRepository" {
+			names = append(names[:len(names):len(names)], "Validate") // Validate() checks both (C20.R3 all-parts)
+			break
+		}
+	}
 	for _, r := range p.Calls {
 		for _, n := range names {
 			if r.Name == "(~/registry.Reference)."+n && sxSame(c20Recv(r), v) && p.ErrNil(-1, r) {
@@ -808,6 +818,13 @@ func c20R4(c *Ctx) {
 			}
 		}
 		if matched == "" {
+			// a parameterised helper (e.g. base + "/" + kind + "/" + reference) is judged
+			// through the builders that instantiate it, provided nothing else can reach it
+			if users, internal := c20OnlyUsedBy(c, f, builders); internal && len(users) > 0 {
+				classOf[f] = "helper"
+				c.Exists(R4, fn+"|template", f.Pos(), true, got+"  =  helper, only instantiated by "+strings.Join(users, ", ")+" (evaluated there)")
+				continue
+			}
 			c.Violation(R4, fn+"|template", f.Pos(), "builds "+got+" which is none of the distribution-spec endpoint templates (a reference part outside its slot, an extra segment or query, or a wrong scheme/host)")
 			continue
 		}
@@ -850,7 +867,7 @@ func c20R4(c *Ctx) {
 			nCalls++
 			for i, a := range call.Common().Args {
 				if b, ok := g.Params[i].Type().Underlying().(*types.Basic); ok && b.Kind() == types.Bool {
-					if !isFieldLoad(a, "PlainHTTP") {
+					if !c20IsPlainHTTP(a, 0) {
 						okPlain, whyPlain = false, FnName(f)+" calls "+FnName(g)+" with a scheme flag that is not the PlainHTTP option"
 					}
 				}
@@ -878,6 +895,67 @@ func c20R4(c *Ctx) {
 	}
 	c.Check(R4, "callers|scheme-by-PlainHTTP", 0, okPlain, ifelse(okPlain, fmt.Sprintf("all %d builder calls pass the PlainHTTP option as the scheme flag", nCalls), whyPlain))
 	c.Check(R4, "callers|store-uses-own-endpoint", 0, okStore, ifelse(okStore, "methods of the blob store use only /blobs/ endpoints, methods of the manifest store only /manifests/ endpoints", whyStore))
+}
+
+// c20OnlyUsedBy: every use of f in its package is a static call from one of
+// the given functions (f is never stored, passed or called from elsewhere).
+func c20OnlyUsedBy(c *Ctx, f *ssa.Function, among []*ssa.Function) (users []string, ok bool) {
+	in := map[*ssa.Function]bool{}
+	for _, g := range among {
+		in[g] = true
+	}
+	seen := map[string]bool{}
+	for _, g := range c.P.FuncsOfPkg(fnPkgPath(f)) {
+		bad := false
+		AllInstrs(g, func(instr ssa.Instruction) {
+			for _, op := range instr.Operands(nil) {
+				if op == nil || *op != ssa.Value(f) {
+					continue
+				}
+				call, isCall := instr.(ssa.CallInstruction)
+				if isCall && call.Common().Value == ssa.Value(f) && in[g] && g != f {
+					if !seen[FnName(g)] {
+						seen[FnName(g)] = true
+						users = append(users, FnName(g))
+					}
+					continue
+				}
+				bad = true
+			}
+		})
+		if bad {
+			return nil, false
+		}
+	}
+	sort.Strings(users)
+	return users, true
+}
+
+// c20IsPlainHTTP: v is the PlainHTTP option, read directly or through an
+// in-module accessor all of whose returns are that field.
+func c20IsPlainHTTP(v ssa.Value, depth int) bool {
+	if isFieldLoad(v, "PlainHTTP") {
+		return true
+	}
+	if depth > 2 {
+		return false
+	}
+	for _, r := range Roots(v) {
+		call, ok := r.(*ssa.Call)
+		if !ok {
+			return false
+		}
+		g := StaticCallee(call)
+		if g == nil || !inModule(g) || len(g.Blocks) == 0 || g.Signature.Results().Len() != 1 {
+			return false
+		}
+		for _, ret := range Returns(g) {
+			if !c20IsPlainHTTP(ret.Results[0], depth+1) {
+				return false
+			}
+		}
+	}
+	return true
 }
 
 // c20StoreType: the concrete (pointer) type Repository.<method>() returns.
@@ -938,7 +1016,16 @@ func c20ReferrersQuery(f *ssa.Function) (bool, string) {
 				return false, "the url.Values is passed to " + CalleeName(u)
 			}
 		case *ssa.MapUpdate:
-			return false, "the url.Values is written directly"
+			// url.Values{"artifactType": []string{<parameter>}} or v["artifactType"] = []string{<parameter>}
+			k, isConst := constString(u.Key)
+			elems, isLit := stLitElems(u.Value)
+			if !isConst || k != "artifactType" || !isLit || len(elems) != 1 {
+				return false, "the query carries something else than artifactType=<parameter>"
+			}
+			if _, isParam := elems[0].(*ssa.Parameter); !isParam {
+				return false, "the query carries something else than artifactType=<parameter>"
+			}
+			sets++
 		case *ssa.DebugRef:
 		default:
 			return false, fmt.Sprintf("the url.Values is used by %T", r)
@@ -951,6 +1038,326 @@ func c20ReferrersQuery(f *ssa.Function) (bool, string) {
 }
 
 var _ = syntax.Perl
+
+// ---------- R5 ----------
+//
+// A raw reference string handed to the remote API (Resolve, FetchReference,
+// PushReference, Tag, NewRepository, …) may be spelled tag, digest, tag@digest
+// or fully qualified.  Only the Reference returned by ParseReference is in
+// wire form; the raw string must never reach a URL: not the Reference field of
+// a registry.Reference, not a URL builder, not http.NewRequest — neither in the
+// entry point nor in the unexported helpers it hands the string to.
+// Decided by value flow (flow-insensitive taint from the parameter, followed
+// into unexported helpers and closures; ParseReference is the only sanitiser).
+
+type c20Sink struct {
+	pos  token.Pos
+	what string
+}
+
+type c20TaintKey struct {
+	fn   *ssa.Function
+	seed ssa.Value
+}
+
+type c20TaintRes struct {
+	sinks   []c20Sink
+	returns bool // a tainted string is returned
+}
+
+type c20Tainter struct {
+	p        *Prog
+	builders map[*ssa.Function]bool
+	roles    map[*ssa.Function]bool // reference-role API methods (delegation targets)
+	memo     map[c20TaintKey]*c20TaintRes
+}
+
+func c20IsParseReference(name string) bool {
+	return name == "~/registry.ParseReference" || strings.HasSuffix(name, ").ParseReference")
+}
+
+func c20IsReferenceField(fa *ssa.FieldAddr) bool {
+	t := fa.X.Type()
+	if p, ok := t.Underlying().(*types.Pointer); ok {
+		t = p.Elem()
+	}
+	return c19IsNamed(t, "/registry", "Reference") && stFieldName(fa.X.Type(), fa.Field) == "Reference"
+}
+
+func (t *c20Tainter) run(fn *ssa.Function, seed ssa.Value, depth int) *c20TaintRes {
+	k := c20TaintKey{fn, seed}
+	if r, ok := t.memo[k]; ok {
+		return r
+	}
+	res := &c20TaintRes{}
+	t.memo[k] = res
+	if depth > 5 {
+		res.sinks = append(res.sinks, c20Sink{fn.Pos(), "helper chain deeper than 5 calls below " + FnName(fn) + " (not followed)"})
+		return res
+	}
+	tainted := map[ssa.Value]bool{}
+	var work []ssa.Value
+	add := func(v ssa.Value) {
+		if v != nil && !tainted[v] {
+			tainted[v] = true
+			work = append(work, v)
+		}
+	}
+	sink := func(pos token.Pos, what string) { res.sinks = append(res.sinks, c20Sink{pos, what}) }
+	add(seed)
+	// addrRoot: base cell of an address expression, and whether the path
+	// selects the Reference field of a registry.Reference
+	addrRoot := func(a ssa.Value) (root ssa.Value, refField bool) {
+		for {
+			switch u := a.(type) {
+			case *ssa.FieldAddr:
+				if c20IsReferenceField(u) {
+					refField = true
+				}
+				a = u.X
+			case *ssa.IndexAddr:
+				a = u.X
+			default:
+				return a, refField
+			}
+		}
+	}
+	isAddr := func(v ssa.Value) bool {
+		switch v.(type) {
+		case *ssa.Alloc, *ssa.FieldAddr, *ssa.IndexAddr:
+			return true
+		case *ssa.FreeVar:
+			_, ok := v.Type().(*types.Pointer)
+			return ok // a variable captured by reference
+		}
+		return false
+	}
+	for len(work) > 0 {
+		v := work[len(work)-1]
+		work = work[:len(work)-1]
+		refs := v.Referrers()
+		if refs == nil {
+			continue
+		}
+		addrLike := isAddr(v)
+		for _, r := range *refs {
+			switch u := r.(type) {
+			case *ssa.Phi, *ssa.ChangeType, *ssa.Convert, *ssa.MakeInterface, *ssa.ChangeInterface:
+				if !addrLike {
+					add(u.(ssa.Value))
+				}
+			case *ssa.Slice:
+				add(u)
+			case *ssa.BinOp:
+				if u.Op == token.ADD && !addrLike {
+					add(u)
+				}
+			case *ssa.Field:
+				add(u)
+			case *ssa.FieldAddr:
+				if addrLike && u.X == v {
+					add(u) // address inside a tainted cell
+				}
+			case *ssa.IndexAddr:
+				if u.X == v {
+					add(u)
+				}
+			case *ssa.UnOp:
+				if u.Op == token.MUL && addrLike && u.X == v {
+					add(u) // load from a tainted cell
+				}
+			case *ssa.Store:
+				if u.Val != v || addrLike {
+					continue
+				}
+				root, refField := addrRoot(u.Addr)
+				if refField {
+					sink(u.Pos(), "stored into the Reference field of a registry.Reference in "+FnName(fn))
+					continue
+				}
+				switch root.(type) {
+				case *ssa.Alloc:
+					add(u.Addr) // field-sensitive: the stored-to address (and the whole cell when stored whole)
+					if u.Addr != root {
+						// whole-struct loads of the root see the tainted field
+						for _, rr := range *root.Referrers() {
+							if ld, ok := rr.(*ssa.UnOp); ok && ld.Op == token.MUL && ld.X == root {
+								add(ld)
+							}
+							if sl, ok := rr.(*ssa.Slice); ok {
+								add(sl)
+							}
+							// other address computations of the same field
+							if fa, ok := rr.(*ssa.FieldAddr); ok {
+								if ua, ok := u.Addr.(*ssa.FieldAddr); ok && ua.X == root && fa.Field == ua.Field {
+									add(fa)
+								}
+							}
+						}
+					}
+				case *ssa.FreeVar:
+					add(u.Addr)
+				}
+			case *ssa.MakeClosure:
+				g := u.Fn.(*ssa.Function)
+				for i, b := range u.Bindings {
+					if b == v {
+						sub := t.run(g, g.FreeVars[i], depth+1)
+						res.sinks = append(res.sinks, sub.sinks...)
+					}
+				}
+			case *ssa.Return:
+				if !addrLike && isStringType(v.Type()) {
+					res.returns = true
+				}
+			case ssa.CallInstruction:
+				cc := u.Common()
+				name := CalleeName(u)
+				for i, a := range cc.Args {
+					if a != v {
+						continue
+					}
+					if cc.IsInvoke() {
+						continue // delegation to an interface method
+					}
+					g := StaticCallee(u)
+					switch {
+					case c20IsParseReference(name):
+						// the sanitiser: its result is in wire form
+					case g != nil && t.builders[g]:
+						if !addrLike {
+							sink(u.Pos(), "passed to the URL builder "+FnName(g)+" in "+FnName(fn))
+						}
+					case g != nil && t.roles[g]:
+						// another reference-taking API method: it parses for itself
+					case name == "net/http.NewRequestWithContext" && i == 2, name == "net/http.NewRequest" && i == 1:
+						sink(u.Pos(), "used as a request URL in "+FnName(fn))
+					case g != nil && len(g.Blocks) > 0 && fnPkgPath(g) == fnPkgPath(fn) && (g.Parent() != nil || !token.IsExported(g.Name())) && i < len(g.Params):
+						sub := t.run(g, g.Params[i], depth+1)
+						res.sinks = append(res.sinks, sub.sinks...)
+						if sub.returns && u.Value() != nil {
+							add(u.Value())
+						}
+					case !addrLike && u.Value() != nil && isStringType(u.Value().Type()) && (strings.HasPrefix(name, "strings.") || strings.HasPrefix(name, "fmt.Sprint")):
+						add(u.Value())
+					case addrLike && u.Value() != nil && isStringType(u.Value().Type()) && strings.HasPrefix(name, "fmt.Sprint"):
+						add(u.Value())
+					}
+				}
+			}
+		}
+	}
+	return res
+}
+
+func c20R5(c *Ctx) {
+	const R5 = "C20.R5.url-reference-is-parsed"
+	c.Expect(R5, 12)
+	pkg := "registry/remote"
+	t := &c20Tainter{p: c.P, builders: map[*ssa.Function]bool{}, roles: map[*ssa.Function]bool{}, memo: map[c20TaintKey]*c20TaintRes{}}
+	for _, f := range c.P.FuncsOfPkg(pkg) {
+		if f.Parent() == nil && f.Signature.Recv() == nil && strings.HasSuffix(c.P.Fset.Position(f.Pos()).Filename, "/url.go") {
+			t.builders[f] = true
+		}
+	}
+	if len(t.builders) == 0 {
+		c.LostAnchor(R5, "URL builders of registry/remote/url.go")
+		return
+	}
+	// reference-role API: methods implementing the reference-taking interface methods
+	type roleM struct{ pkg, iface, method string }
+	roleSigs := map[string]*types.Signature{}
+	for _, rm := range []roleM{{"content", "Resolver", "Resolve"}, {"content", "Tagger", "Tag"},
+		{"registry", "ReferencePusher", "PushReference"}, {"registry", "ReferenceFetcher", "FetchReference"}} {
+		n := c.P.Named(rm.pkg, rm.iface)
+		if n == nil {
+			c.LostAnchor(R5, rm.pkg+"."+rm.iface)
+			return
+		}
+		it, ok := n.Underlying().(*types.Interface)
+		if !ok {
+			c.LostAnchor(R5, rm.pkg+"."+rm.iface+" (interface)")
+			return
+		}
+		for i := 0; i < it.NumMethods(); i++ {
+			if it.Method(i).Name() == rm.method {
+				roleSigs[rm.method] = it.Method(i).Type().(*types.Signature)
+			}
+		}
+		if roleSigs[rm.method] == nil {
+			c.LostAnchor(R5, rm.pkg+"."+rm.iface+"."+rm.method)
+			return
+		}
+	}
+	sameSig := func(a, b *types.Signature) bool {
+		return types.Identical(types.NewSignatureType(nil, nil, nil, a.Params(), a.Results(), a.Variadic()),
+			types.NewSignatureType(nil, nil, nil, b.Params(), b.Results(), b.Variadic()))
+	}
+	type entry struct {
+		fn     *ssa.Function
+		param  *ssa.Parameter
+		parses []ssa.CallInstruction
+	}
+	var entries []entry
+	for _, f := range c.P.FuncsOfPkg(pkg) {
+		if f.Parent() != nil || !token.IsExported(f.Name()) {
+			continue
+		}
+		if f.Name() == "ParseReference" && f.Signature.Recv() != nil && len(CallsTo(f, "~/registry.ParseReference")) > 0 {
+			continue // the parser itself (C20.R3)
+		}
+		var ps []*ssa.Parameter
+		if sig, ok := roleSigs[f.Name()]; ok && f.Signature.Recv() != nil && sameSig(sig, f.Signature) {
+			t.roles[f] = true
+			for _, p := range f.Params[1:] {
+				if isStringType(p.Type()) {
+					ps = append(ps, p)
+				}
+			}
+		}
+		parseCalls := map[*ssa.Parameter][]ssa.CallInstruction{}
+		for _, call := range Calls(f, c20IsParseReference) {
+			for _, a := range call.Common().Args {
+				if p, ok := a.(*ssa.Parameter); ok && isStringType(p.Type()) {
+					parseCalls[p] = append(parseCalls[p], call)
+					found := false
+					for _, q := range ps {
+						if q == p {
+							found = true
+						}
+					}
+					if !found {
+						ps = append(ps, p)
+					}
+				}
+			}
+		}
+		for _, p := range ps {
+			entries = append(entries, entry{f, p, parseCalls[p]})
+		}
+	}
+	sort.Slice(entries, func(i, j int) bool { return FnName(entries[i].fn) < FnName(entries[j].fn) })
+	for _, e := range entries {
+		key := FnName(e.fn) + "|raw-reference"
+		res := t.run(e.fn, e.param, 0)
+		ok, detail := true, "the raw reference string reaches no URL: only the Reference returned by ParseReference (or a delegate that parses) is used"
+		if len(res.sinks) > 0 {
+			ok = false
+			detail = fmt.Sprintf("the caller's raw reference string (which may be tag@digest or fully qualified) is %s at %s instead of the parsed Reference: the request URL gets extra path segments or a query",
+				res.sinks[0].what, c.P.Pos(res.sinks[0].pos))
+		}
+		pos := e.fn.Pos()
+		if !ok {
+			pos = res.sinks[0].pos
+		}
+		for _, pc := range e.parses {
+			if r := ErrFlow(pc, ErrFlowOpts{}); !r.OK && ok {
+				ok, detail, pos = false, "the error of ParseReference is not surfaced: "+r.Detail, pc.Pos()
+			}
+		}
+		c.Check(R5, key, pos, ok, detail)
+	}
+}
 
 var c20Mutants = []Mutant{
 	{Name: "tag-allows-percent", File: "registry/reference.go", Old: "regexp.MustCompile(`^[\\w][\\w.-]{0,127}$`)", New: "regexp.MustCompile(`^[\\w][\\w.%-]{0,127}$`)", Expect: "C20.R1"},
@@ -988,5 +1395,17 @@ var c20Mutants = []Mutant{
 	{Name: "mount-arguments-swapped", File: "registry/remote/url.go", Old: "\t\td,\n\t\tfromRepo,\n", New: "\t\tfromRepo,\n\t\td,\n", Expect: "C20.R4"},
 	{Name: "extra-query-parameter", File: "registry/remote/url.go", Old: "\t\tv.Set(\"artifactType\", artifactType)\n", New: "\t\tv.Set(\"artifactType\", artifactType)\n\t\tv.Set(\"n\", ref.Reference)\n", Expect: "C20.R4"},
 	{Name: "tags-always-https", File: "registry/remote/repository.go", Old: "\turl := buildRepositoryTagListURL(r.PlainHTTP, r.Reference)", New: "\turl := buildRepositoryTagListURL(false, r.Reference)", Expect: "C20.R4"},
+	{Name: "push-reference-forwards-raw-string", File: "registry/remote/repository.go",
+		Old: "\treturn s.pushWithIndexing(ctx, expected, content, ref.Reference)", New: "\t_ = ref\n\treturn s.pushWithIndexing(ctx, expected, content, reference)", Expect: "C20.R5"},
+	{Name: "tag-forwards-raw-string", File: "registry/remote/repository.go",
+		Old: "\treturn s.push(ctx, desc, rc, ref.Reference)", New: "\treturn s.push(ctx, desc, rc, reference)", Expect: "C20.R5"},
+	{Name: "resolve-overwrites-parsed-reference", File: "registry/remote/repository.go",
+		Old: "\turl := buildRepositoryManifestURL(s.repo.PlainHTTP, ref)\n\treq, err := http.NewRequestWithContext(ctx, http.MethodHead, url, nil)",
+		New: "\tref.Reference = strings.TrimPrefix(reference, \"@\")\n\turl := buildRepositoryManifestURL(s.repo.PlainHTTP, ref)\n\treq, err := http.NewRequestWithContext(ctx, http.MethodHead, url, nil)", Expect: "C20.R5"},
+	{Name: "push-reference-parse-error-ignored", File: "registry/remote/repository.go",
+		Old: "\tref, err := s.repo.ParseReference(reference)\n\tif err != nil {\n\t\treturn err\n\t}\n\treturn s.pushWithIndexing(", New: "\tref, _ := s.repo.ParseReference(reference)\n\treturn s.pushWithIndexing(", Expect: "C20.R5"},
+	{Name: "blob-fetch-builds-url-by-hand", File: "registry/remote/repository.go",
+		Old: "\trefDigest, err := ref.Digest()\n\tif err != nil {\n\t\treturn ocispec.Descriptor{}, nil, err\n\t}\n\n\tctx = auth.AppendRepositoryScope(ctx, ref, auth.ActionPull)\n\turl := buildRepositoryBlobURL(s.repo.PlainHTTP, ref)\n",
+		New: "\trefDigest, err := ref.Digest()\n\tif err != nil {\n\t\treturn ocispec.Descriptor{}, nil, err\n\t}\n\n\tctx = auth.AppendRepositoryScope(ctx, ref, auth.ActionPull)\n\turl := buildRepositoryBaseURL(s.repo.PlainHTTP, ref) + \"/blobs/\" + reference\n", Expect: "C20.R5"},
 	{Name: "reference-placed-in-query", File: "registry/remote/url.go", Old: "\t\t\"%s/referrers/%s%s\",", New: "\t\t\"%s/referrers/?digest=%s%s\",", Expect: "C20.R4"},
 }
